@@ -26,7 +26,11 @@ func init() {
 
 func genC09(ctx *Ctx) {
 	alpha := []rune{'a', 'b', ' ', ',', ';', '|', '"', '\'', '\r', '\n', 'é', '日', 0, 0xFFFE, '\t', 'ÿ', 0x100, '；', '語', 0xFEFF, 0x2028, 0xA0, 0x200B, 0xFFFD, '\v', '\f', 0x85}
-	sepSets := [][]rune{{','}, {';', ','}, {'|'}, {'日'}, {'ÿ'}, {'；', ','}, {0x100}, {0xFFFE, ';'}}
+	many := []rune{}
+	for i := 0; i < 24; i++ {
+		many = append(many, rune(0x2500+i)) // two dozen separators above U+00FF
+	}
+	sepSets := [][]rune{{','}, {';', ','}, {'|'}, {'日'}, {'ÿ'}, {'；', ','}, {0x100}, {0xFFFE, ';'}, many, append([]rune{','}, many[:17]...)}
 	quoteSets := [][]rune{{'"'}, {'"', '\''}, {'\''}, {'é'}, {0x101}, {'þ', '"'}}
 	eols := []string{"\n", "\r", "\r\n", "\n\r"}
 	st := csv.NewCsvQuoteState()
